@@ -1570,9 +1570,15 @@ def constfold(fn):
         if not isinstance(tree, dict):
             return
         for n in ir.walk(tree):
-            if isinstance(n, dict) and n.get("k") == "call" and len(n.get("args", [])) == 1 and n.get("this") is None:
+            if isinstance(n, dict) and n.get("k") == "call" and len(n.get("args", [])) <= 1 and (n.get("this") is None or (isinstance(n.get("cval"), int) and ir.unwrap(n["this"]).get("k") == "this")):
                 nm = n.get("name") or ""
-                if nm.endswith("char_traits<char>::length") or nm in ("strlen", "std::strlen"):
+                if isinstance(n.get("cval"), int) and not n.get("args"):
+                    # an argument-less constexpr call the compiler evaluated (`reverse_prefix_length()`): its value
+                    ln, v, t0, b0 = n.get("ln"), n["cval"], n.get("type"), n.get("bits")
+                    n.clear()
+                    n.update({"k": "lit", "t": "unsigned long" if "size_t" in (t0 or "") or "unsigned" in (t0 or "") else "int", "v": v, "ln": ln, "type": t0, "bits": b0})
+                    continue
+                if len(n.get("args", [])) == 1 and (nm.endswith("char_traits<char>::length") or nm in ("strlen", "std::strlen")):
                     a = ir.unwrap(n["args"][0])
                     while isinstance(a, dict) and a.get("k") == "cast":
                         a = ir.unwrap(a["e"])
@@ -1624,6 +1630,7 @@ def normalise(prog, known=None):
         f = prog.fns[fid]
         if not f.has_cfg:
             continue
+        constfold(f)
         g = inl.expand(f)
         constfold(g)
         if g is not f and kf is not None:
